@@ -29,6 +29,9 @@ PROP = "C01"
 GENERATED = ["transition_skeleton"]
 LEAN_MODULES = ["MiciVerif.Props.C01", "MiciVerif.Props.C01Stats", "MiciVerif.Props.C01S"]
 # <<< builder B8
+# >>> builder B12: statistics of the dynamic transitions read from the generated bodies (Props/C01T.lean)
+LEAN_MODULES = LEAN_MODULES + ["MiciVerif.Props.C01T"]
+# <<< builder B12
 LEAN_EXTRA = ["MiciVerif.Model.Transitions", "MiciVerif.Proto"]
 
 R_DELTA = 5  # max_delta_h = log(5); weight ratios are never within 6% of 5 (see gen_weights)
@@ -471,6 +474,14 @@ def run_dynamic(orb, D, i, kind, salt, extra):
         wj = orb.weight(j)
         if wj == 0 and j != i:
             problems.append(f"returned state {j} has zero weight (energy {orb.h[j - orb.lo]})")
+        # >>> builder B12: tree_depth is the index of the last doubling started (C01T.sem_dynamic_stats_is_visited:
+        # tree_depth + 1 = number of passes). Doubling p attempts between 1 and 2^p integrator steps and only the last
+        # one started may be cut short, so with c attempted steps in total (failing one included) the number of
+        # doublings started is c.bit_length().
+        if cl and stats["tree_depth"] != len(cl).bit_length() - 1:
+            problems.append(f"tree_depth={stats['tree_depth']} but {len(cl)} integrator steps were attempted, i.e. "
+                            f"{len(cl).bit_length()} doublings were started (start {i})")
+        # <<< builder B12
     return out, levels, problems
 
 
@@ -782,3 +793,30 @@ LEVEL_NOTE += (
     "correspondence runs."
 )
 # <<< builder B8
+
+# >>> builder B12: statistics reading of the dynamic transitions
+LEVEL_TEXT += (
+    " Statistics of the dynamic transitions read from the source (Props/C01T.lean, re-checked against the regenerated "
+    "Generated/TransitionSkeleton.lean): sem_stats_plans / sem_stats_loop_plan - the generated bodies of "
+    "DynamicIntegrationTransition.sample, _build_tree and _process_integrator_error have exactly the expected statement "
+    "plans; the reading Skel.SSem executes them in source order on the shared stats dictionary (n_step += 1, "
+    "sum_metrop_accept_prob += metrop_accept_prob, flags set by _process_integrator_error in the except IntegratorError "
+    "handler with the class of what was raised, stats.pop / division by n_step guarded by n_step > 0, accept_stat = 0 if "
+    "any flag, tree_depth = depth); sem_build_tree_stats_is_buildVisit - a _build_tree call, from any dictionary state, "
+    "counts exactly the leaves of buildVisit in order, adds their acceptance probabilities, terminates iff buildVisit "
+    "does not end ok, touches the flags iff it ends err; sem_dynamic_stats_any_error_class / sem_dynamic_stats_is_visited "
+    "- the whole sample reports visited t start (counted leaves, n_step = nStep, tree_depth + 1 = number of passes, any "
+    "flag = error flag, accept_stat = acceptStat) for every tree, start and failure pattern; sem_final_in_visited, "
+    "sem_nstep_counts_each_step_once, sem_accept_stat_is_mean_over_visited, sem_nstep_full - the C01Stats theorems "
+    "transported to what the generated code reports; skel_check_divergence_raises_divergence. A decided example shows "
+    "the hypothesis 'a failing step raises a flagged class' is necessary: after a plain IntegratorError no flag is set "
+    "and accept_stat is the mean over the leaves counted so far, not 0."
+)
+LEVEL_NOTE += (
+    " Trusted in the statistics reading (Model/TransitionStatsSem.lean): min(1, exp(h_init - h_k)) (0 for NaN) of the "
+    "leaf at offset k is read as ratio (w k) (w start); integrator.step raises iff the entering step fails, "
+    "_check_divergence raises HamiltonianDivergenceError iff the leaf is flagged divergent, nothing else in the try body "
+    "raises; isinstance on the three unrelated error classes; the exact text of the stats dictionary display and of the "
+    "any(...) generator; the termination criterion as a flag of the block; reject_prob is not modelled."
+)
+# <<< builder B12
